@@ -167,9 +167,9 @@ func TestVerifToFileMainBin(t *testing.T) {
 			case 0:
 				channel = ""
 			case 1:
-				ct = []string{"0s", "-1s", "1ns"}[r.Intn(3)]
+				ct = []string{"0s", "-1s", "3s"}[r.Intn(3)] // positive values stay large: a tiny timeout makes the poll itself fail before it reaches the stub
 			case 2:
-				rt = []string{"0s", "-1ms", "1ns"}[r.Intn(3)]
+				rt = []string{"0s", "-1ms", "4s"}[r.Intn(3)]
 			case 3:
 				nn, nl = r.Intn(3), r.Intn(3)
 			case 4:
